@@ -317,10 +317,18 @@ func (ex *Exec) schedule() {
 		}
 		ts := ex.enabledTransitions()
 		if len(ts) == 0 {
-			if ex.fireTimer() {
-				continue
+			// quiescent: a goroutine waiting in vt.Settle may continue (lowest id first), then timers fire
+			ex.settling = true
+			ts = ex.enabledTransitions()
+			ex.settling = false
+			if len(ts) > 0 {
+				ts = ts[:1]
+			} else {
+				if ex.fireTimer() {
+					continue
+				}
+				return
 			}
-			return
 		}
 		// sleep sets: transitions already explored from an equivalent state are not taken again
 		var awake []int
